@@ -187,5 +187,19 @@ def run(ctx):
                "(every with-length dump guarded by a comparison that measures the frame it dumps: %s) — admission bounds only the shortest form (1 + len), so unless the loader "
                "checks the limit before adding the length varint an admitted datagram leaves as a frame of limit+1/+2 bytes and "
                "the peer answers PROTOCOL_VIOLATION" % (adm, cond_a, ["bb%d:%s" % (d, sorted(dumped[d])) for d in with_len], ["L%s:%s" % (x[2], sorted(x[3])) for x in limit_cmp], cond_b))
+    # ---------------------------------------------------------------- R6 by reference
+    ctx.rule("R6", "the payload is cut out of the packet at the right place: the DATAGRAM body slices of the frame decoder start at "
+                   "raw.len() - remainder.len() and are taken under remainder.len() >= length (C03-R8 obligations re-evaluated)")
+    import importlib
+    from qlint import framework as fw
+    sub = fw.Ctx("C03", ctx.tier, ctx.seed, prog)
+    importlib.import_module("rules.C03").run(sub)
+    n6 = 0
+    for o in sub.obs:
+        if o.rule == "R8" and "floor:" not in o.key:
+            n6 += 1
+            ctx.ob("R6", "C03:%s" % o.key, o.ok, o.where, o.detail)
+    ctx.functions |= sub.functions
+    ctx.floor("R6", "body-slice obligations inherited from C03-R8", n6, 6)
     ctx.note("R3/R4: the sender admits 1 + len <= limit but may then encode a length varint; the receiver measures "
              "encoding_size() + len: boundary sizes accepted by the sender can be rejected by an identical peer (recorded as a note)")
